@@ -50,9 +50,14 @@ def _in_family(m, fi: FuncInfo) -> bool:
 def run(ctx: Ctx):
   m = model(ctx)
   eng = m.eng
-  for r in (r1, r2, r3, r4, r5, r6, r7, r8, r9, r10, r11, r13, r14, r16, r17, r18, r19, r20, r21):
+  for r in (r1, r2, r3, r4, r5, r6, r7, r8, r9, r10, r11, r13, r14, r16, r17, r18, r19, r20, r21, r22):
     ctx.guard(r, m)
   from mlmverif.props import c13
+  from mlmverif.props import c13 as _c13
+  ctx.include('R-C04-23', '"consumers get every element exactly once" in a stacked stream: the stop link points from the RESULT queue to'
+              ' the input queue (`result.stop_with(<input>)`, R-C13-10) — linked the other way round, the end of the feeders'
+              ' stops the result queue while the workers still hold elements: their remaining puts are dropped and the'
+              ' consumer gets end-of-stream with the tail of the stream missing', _c13.r10, min_instances=1)
   ctx.include('R-C04-15', '"end-of-stream carrying all producers\' return values":'
               ' the enqueue loops forward every return value of their iterator'
               ' (`*e.args` / `e.value`), also when the iterator is another queue'
@@ -1382,10 +1387,57 @@ def r21(ctx: Ctx, m):
   ctx.floor(rule, 2, n)
 
 
+def r22(ctx: Ctx, m):
+  rule = 'R-C04-22'
+  ctx.rule(rule, '"consumers get every element exactly once and then exactly one end-of-stream": a producer is COUNTED before it can'
+           ' be waited for. In each producer entry (enqueue_from_iterator / async_enqueue_from_iterator) the registration'
+           ' `self._start_enqueue()` dominates every statement that touches the source (`await <source>`, iter / aiter / next'
+           ' / anext on it): a producer that registers only after its (awaitable) source has resolved is not counted while'
+           ' it waits — when the others finish first, enqueue_done flips, consumers get end-of-stream, and the late'
+           ' producer\'s elements land in a buffer nobody reads')
+  n = 0
+  for ci in m.classes:
+    for name in ('enqueue_from_iterator', 'async_enqueue_from_iterator'):
+      fi = ci.methods.get(name)
+      if fi is None:
+        continue
+      p = fi.params()[1]
+      g = cfgm.cfg_of(fi.node)
+      reg = lambda nd: any(isinstance(c, ast.Call) and isinstance(c.func, ast.Attribute) and c.func.attr == '_start_enqueue'
+                           for c in cfgm.node_exprs(nd))
+      def touches(nd):
+        for top in cfgm.node_exprs(nd):
+          for x in ast.walk(top):
+            if isinstance(x, ast.Await) and any(isinstance(y, ast.Name) and y.id == p for y in ast.walk(x)):
+              return True
+            if isinstance(x, ast.Call) and unparse(x.func) in ('iter', 'aiter', 'next', 'anext') and x.args and any(
+                isinstance(y, ast.Name) and y.id == p for y in ast.walk(x.args[0])):
+              return True
+        return False
+      users = [nd for nd in g.nodes if touches(nd)]
+      if not users:
+        continue
+      n += 1
+      late = [u for u in users if g.dominates(reg, u, cfgm.only_normal) is not None]
+      what = f'{ci.name}.{name}: the producer registers before it touches its source'
+      if late:
+        ctx.fail(rule, fi, what,
+                 f'`{late[0].text()[:60]}` can run before `_start_enqueue()`: while this producer waits for its source it is not'
+                 ' counted, the queue can announce end-of-stream without it and its elements are never received', node=late[0].ast or fi.node)
+      else:
+        ctx.ok(rule, fi, what, fi.node)
+  ctx.floor(rule, 2, n)
+
+
 from mlmverif.selfcheck import B, OK  # noqa: E402
 
 _F = 'utils/iter_utils.py'
 VARIANTS = [
+    B('async-producer-registers-after-its-source-resolved', 'utils/iter_utils.py',
+      "    self._start_enqueue()\n    try:\n      if isinstance(iterator, Awaitable):\n        iterator = await iterator\n      if not isinstance(iterator, AsyncIterator):\n        iterator = aiter(iterator)\n",
+      "    try:\n      if isinstance(iterator, Awaitable):\n        iterator = await iterator\n      if not isinstance(iterator, AsyncIterator):\n        iterator = aiter(iterator)\n      self._start_enqueue()\n", 'R-C04-22'),
+    B('stop-link-the-wrong-way-round', 'utils/iter_utils.py',
+      "    result.stop_with(input_iterable)\n  return result", "    input_iterable.stop_with(result)\n  return result", 'R-C04-23'),
     OK('async-get-helper-called-through-a-lambda-free-partial', 'utils/iter_utils.py',
        "    return await loop.run_in_executor(self._thread_pool, _async_get, self)", "    element = await loop.run_in_executor(self._thread_pool, _async_get, self)\n    return element"),
     B('async-get-runs-the-bound-get', 'utils/iter_utils.py',
